@@ -406,8 +406,9 @@ def run(tier, seed):
                 elif not run_kept and lexical != rundir:
                     problems.append(("-o %s: latest -> %r names %s, not the (erased) run directory %s" % (m["oarg"], link, lexical, rundir), {"kind": "latest", "outdir": shape}))
             # O3: survive table in terms of the exit status (Lean spec)
-            o3 = model.ask("C12 oracle-survive %s %s %s %s %s %s %s" % (bit("-k" in fl), bit("--clear" in fl), bit(up is not None), bit("--disable-plots" in fl),
-                                                                      bit(failed), bit(art_kept), bit(run_kept)))
+            play_failed = bool(res_js.get("Foul")) if (res_js and "_malformed" not in res_js) else (failed and not (up and up["fails"] and not m["fouled"]))
+            o3 = model.ask("C12 oracle-survive %s %s %s %s %s %s %s %s" % (bit("-k" in fl), bit("--clear" in fl), bit(up is not None), bit("--disable-plots" in fl),
+                                                                         bit(play_failed), bit(failed), bit(art_kept), bit(run_kept)))
             if o3 != "ok":
                 problems.append(("flags %s, exit status %d: artifacts %s, run directory %s — %s" % (fl, r["rc"], "kept" if art_kept else "gone", "kept" if run_kept else "erased", o3), {"kind": "survive"}))
             if failed != (m["fouled"] or bool(up and up["fails"])):
@@ -454,8 +455,16 @@ def run(tier, seed):
                 if not up["fails"] and not (copied and os.path.isfile(os.path.join(up["dest"], copied[0], "result.js"))):
                     problems.append(("upload did not receive the run directory with result.js", {"kind": "upload"}))
                 if copied:
-                    rep.count("e2e:uploaded copy %s artifacts (%s, %s play)" % ("has" if os.path.isdir(os.path.join(up["dest"], copied[0], "artifacts")) else "has no",
+                    has_art = os.path.isdir(os.path.join(up["dest"], copied[0], "artifacts"))
+                    rep.count("e2e:uploaded copy %s artifacts (%s, %s play)" % ("has" if has_art else "has no",
                                                                                  "-k" if "-k" in fl else "no -k", "fouled" if m["fouled"] else "clean"))
+                    # the artifacts are erased (step 4 of the manual's "at the end of the play") BEFORE the upload (step 5):
+                    # what is uploaded holds them iff the play was fouled or -k was given
+                    if mo.get("upart") is not None and bit(has_art) != mo.get("upart"):
+                        kdis.append({"op": "uploaded artifacts", "flags": fl, "fouled": m["fouled"], "observed": bit(has_art), "model": mo.get("upart")})
+                    if has_art != (m["fouled"] or "-k" in fl):
+                        problems.append(("the uploaded run directory %s the artifacts although the play was %s and -k was %sgiven" % (
+                            "holds" if has_art else "lacks", "fouled" if m["fouled"] else "clean", "" if "-k" in fl else "not "), {"kind": "uploaded-artifacts"}))
             for what, tag in problems:
                 ofail.append({"what": what, "tag": tag, "flags": fl, "fouled play": m["fouled"], "-o": m["oarg"], "repeat": m["repeat"], "upload": up,
                               "rc": r["rc"], "config": m["config"], "argv": r["argv"], "tree": [t for t in r["tree"] if "/logs/" not in t][:40],
